@@ -41,14 +41,17 @@ func (k Keeper) DivvyingTips(ctx context.Context, reporterAddr sdk.AccAddress, r
 		return err
 	}
 
+	commissionCredited := false
 	for _, del := range delAddrs.TokenOrigins {
 		// delegator share = netReward * selector's share / total shares
 		delAmountDec := del.Amount.ToLegacyDec()
 		delTotalDec := delAddrs.Total.ToLegacyDec()
 		delegatorShare := netReward.Mul(delAmountDec).Quo(delTotalDec)
 
-		if bytes.Equal(del.DelegatorAddress, reporterAddr.Bytes()) {
+		// the reporter appears once per validator it is staked with: the commission is credited only once
+		if bytes.Equal(del.DelegatorAddress, reporterAddr.Bytes()) && !commissionCredited {
 			delegatorShare = delegatorShare.Add(commission)
+			commissionCredited = true
 		}
 		// get selector's previous tips
 		oldTips, err := k.SelectorTips.Get(ctx, del.DelegatorAddress)
@@ -66,6 +69,17 @@ func (k Keeper) DivvyingTips(ctx context.Context, reporterAddr sdk.AccAddress, r
 		if err != nil {
 			return err
 		}
+	}
+	if !commissionCredited && !commission.IsZero() {
+		// the reporter had no own bonded stake behind this report: it still earns its commission
+		oldTips, err := k.SelectorTips.Get(ctx, reporterAddr.Bytes())
+		if err != nil {
+			if !errors.Is(err, collections.ErrNotFound) {
+				return err
+			}
+			oldTips = math.LegacyZeroDec()
+		}
+		return k.SelectorTips.Set(ctx, reporterAddr.Bytes(), oldTips.Add(commission))
 	}
 
 	return nil
